@@ -16,11 +16,12 @@ import (
 
 // Config says what to specialise.
 type Config struct {
-	FalseFields map[string]bool // selector texts that are constant false, e.g. "p.debug"
-	DropCalls   map[string]bool // statement-level calls to drop, e.g. "p.incChoiceAltCnt"
+	FalseFields    map[string]bool // selector texts that are constant false, e.g. "p.debug"
+	DropCalls      map[string]bool // statement-level calls to drop, e.g. "p.incChoiceAltCnt"
 	DropAssignFrom map[string]bool // assignments whose right-hand side is a call of these, e.g. "p.cloneState"
-	DropKeys    map[string]bool // composite-literal keys to drop, e.g. "state"
-	DropCases   map[string]bool // type-switch cases to drop, e.g. "*stateCodeExpr" (node type that cannot occur)
+	DropKeys       map[string]bool // composite-literal keys to drop, e.g. "state"
+	DropCases      map[string]bool // type-switch cases to drop, e.g. "*stateCodeExpr" (node type that cannot occur)
+	falseLocals    map[string]bool // per function: locals that are false on every assignment once the constant fields are folded
 }
 
 func text(n ast.Node) string {
@@ -46,6 +47,16 @@ func (c *Config) fold(e ast.Expr) (val int, out ast.Expr) { // val: 1 true, 0 fa
 	case *ast.SelectorExpr:
 		if c.FalseFields[nospace(x)] {
 			return 0, nil
+		}
+	case *ast.Ident:
+		if c.falseLocals[x.Name] {
+			return 0, nil
+		}
+		if x.Name == "false" {
+			return 0, nil
+		}
+		if x.Name == "true" {
+			return 1, nil
 		}
 	case *ast.UnaryExpr:
 		if x.Op == token.NOT {
@@ -93,6 +104,9 @@ func (c *Config) fold(e ast.Expr) (val int, out ast.Expr) { // val: 1 true, 0 fa
 func (c *Config) mentionsConst(e ast.Expr) bool {
 	found := false
 	ast.Inspect(e, func(n ast.Node) bool {
+		if id, ok := n.(*ast.Ident); ok && c.falseLocals[id.Name] {
+			found = true
+		}
 		if s, ok := n.(*ast.SelectorExpr); ok && c.FalseFields[nospace(s)] {
 			found = true
 		}
@@ -142,6 +156,11 @@ func (c *Config) stmt(st ast.Stmt) []ast.Stmt {
 	case *ast.AssignStmt:
 		if len(x.Rhs) == 1 && c.DropAssignFrom[callText(x.Rhs[0])] {
 			return nil
+		}
+		if len(x.Lhs) == 1 && len(x.Rhs) == 1 {
+			if id, ok := x.Lhs[0].(*ast.Ident); ok && c.falseLocals[id.Name] {
+				return nil // the local is false throughout: its uses were folded, its stores are dead
+			}
 		}
 		for _, r := range x.Rhs {
 			c.exprs(r)
@@ -233,7 +252,21 @@ func (c *Config) stmt(st ast.Stmt) []ast.Stmt {
 		}
 		return []ast.Stmt{&ast.SwitchStmt{Init: x.Init, Tag: x.Tag, Body: c.caseBlock(x.Body)}}
 	case *ast.TypeSwitchStmt:
-		return []ast.Stmt{&ast.TypeSwitchStmt{Init: x.Init, Assign: x.Assign, Body: c.caseBlock(x.Body)}}
+		body := c.caseBlock(x.Body)
+		empty := x.Init == nil
+		for _, cl := range body.List {
+			if cc, ok := cl.(*ast.CaseClause); ok && len(cc.Body) > 0 {
+				empty = false
+			}
+		}
+		if empty {
+			if es, ok := x.Assign.(*ast.ExprStmt); ok {
+				if _, isAssert := es.X.(*ast.TypeAssertExpr); isAssert {
+					return nil // a type switch none of whose clauses does anything
+				}
+			}
+		}
+		return []ast.Stmt{&ast.TypeSwitchStmt{Init: x.Init, Assign: x.Assign, Body: body}}
 	}
 	return []ast.Stmt{st}
 }
@@ -383,7 +416,9 @@ func Specialise(src string, cfg *Config) (*ast.File, error) {
 		switch x := d.(type) {
 		case *ast.FuncDecl:
 			if x.Body != nil {
+				cfg.falseLocals = cfg.findFalseLocals(x)
 				x.Body = cfg.block(x.Body)
+				cfg.falseLocals = nil
 				dropUnusedLocals(x)
 			}
 			x.Doc = nil
@@ -594,4 +629,68 @@ func SortedKeys(m map[string]string) []string {
 	}
 	sort.Strings(ks)
 	return ks
+}
+
+// findFalseLocals: locals of fd every assignment of which is constant false once the constant fields are folded
+// (`memoize := p.memoize` with p.memoize false, `memoize = false` in some branch), and whose address is not taken.
+func (c *Config) findFalseLocals(fd *ast.FuncDecl) map[string]bool {
+	cand := map[string]bool{}
+	bad := map[string]bool{}
+	ast.Inspect(fd.Body, func(n ast.Node) bool {
+		switch x := n.(type) {
+		case *ast.AssignStmt:
+			for i, l := range x.Lhs {
+				id, ok := l.(*ast.Ident)
+				if !ok || id.Name == "_" {
+					continue
+				}
+				if len(x.Lhs) != len(x.Rhs) || x.Tok != token.DEFINE && x.Tok != token.ASSIGN {
+					bad[id.Name] = true
+					continue
+				}
+				if v, _ := c.fold(x.Rhs[i]); v == 0 {
+					cand[id.Name] = true
+				} else {
+					bad[id.Name] = true
+				}
+			}
+		case *ast.ValueSpec:
+			for _, nm := range x.Names {
+				bad[nm.Name] = true
+			}
+		case *ast.RangeStmt:
+			for _, v := range []ast.Expr{x.Key, x.Value} {
+				if id, ok := v.(*ast.Ident); ok {
+					bad[id.Name] = true
+				}
+			}
+		case *ast.IncDecStmt:
+			if id, ok := x.X.(*ast.Ident); ok {
+				bad[id.Name] = true
+			}
+		case *ast.UnaryExpr:
+			if id, ok := x.X.(*ast.Ident); ok && x.Op == token.AND {
+				bad[id.Name] = true
+			}
+		}
+		return true
+	})
+	// parameters and named results are not locals with a known value
+	for _, fl := range []*ast.FieldList{fd.Type.Params, fd.Type.Results} {
+		if fl == nil {
+			continue
+		}
+		for _, f := range fl.List {
+			for _, nm := range f.Names {
+				bad[nm.Name] = true
+			}
+		}
+	}
+	out := map[string]bool{}
+	for n := range cand {
+		if !bad[n] {
+			out[n] = true
+		}
+	}
+	return out
 }
